@@ -1,6 +1,7 @@
 """C11 correspondence: System W and lexicographic inference under every selectable partial-MaxSAT back-end
 (z3, rc2 with each usable SAT engine), c-inference under every rc2 engine; every answer is compared with the
 Coq model (W, lex) and all engines with each other (c-inference)."""
+import os
 import random
 from collections import Counter
 
@@ -13,18 +14,44 @@ ENGINES_QUICK = ["rc2", "rc2-g3", "rc2-g4", "rc2-cd", "rc2-m22", "rc2-mgh", "rc2
 ENGINES_ALL = ENGINES_QUICK + ["rc2-cd15", "rc2-cd19", "rc2-gc4", "rc2-mcm", "rc2-mpl", "rc2-mg3", "rc2-g42"]
 
 
+PROBE = r'''
+import sys, random
+sys.path.insert(0, "/verif/harness")
+import common, ops
+common.setup_impl_env()
+rng = random.Random(11)
+cand = ops.corpus_cases(False) + ops.gen_ops_cases(rng, 60, False, max_atoms=5, nq=4, prefix="u")
+m0 = common.run_model(cand)
+ok = 0
+for c in [c for c in cand if m0[c["id"]]["part"] is not None and c["base"]][:12]:
+    for s in ("system-w", "lex_inf", "c-inference"):
+        r = common.impl_infer(c, s, sys.argv[1])
+        ok += isinstance(r, list)
+print("PROBE-OK" if ok else "PROBE-NONE")
+'''
+
+
 def usable(engine):
-    from common import V, make_case
-    c = make_case("probe", 2, [(1, V(1), V(0))], [(1, V(1), V(0))], False)
-    r = common.impl_infer(c, "system-w", engine)
-    return isinstance(r, list)
+    """An engine is usable if it is accepted by the optimiser and survives a small workload in a process of its own (some SAT engines
+    of the installed pysat build crash the interpreter on ordinary instances: that is outside the repository and would take a worker down)."""
+    import subprocess
+    env = dict(os.environ, PYTHONPATH=common.REPO, PYTHONHASHSEED="0", INFOCF_LOGLEVEL="ERROR")
+    try:
+        r = subprocess.run(["/venv/bin/python", "-c", PROBE, engine], capture_output=True, text=True, env=env, timeout=300)
+    except subprocess.TimeoutExpired:
+        return False
+    return r.returncode == 0 and "PROBE-OK" in r.stdout
 
 
 def run(tier, seed, broken_proof=False):
     rng = random.Random(seed + 1111)
     common.setup_impl_env()
-    engines = [e for e in (ENGINES_QUICK if tier == "quick" else ENGINES_ALL) if usable(e)]
-    unus = [e for e in (ENGINES_QUICK if tier == "quick" else ENGINES_ALL) if e not in engines]
+    wanted = ENGINES_QUICK if tier == "quick" else ENGINES_ALL
+    import concurrent.futures
+    with concurrent.futures.ThreadPoolExecutor(max_workers=8) as tp:
+        flags = list(tp.map(usable, wanted))
+    engines = [e for e, f in zip(wanted, flags) if f]
+    unus = [e for e in wanted if e not in engines]
     count = 60 if tier == "quick" else 250
     violations = []
     strata = Counter()
